@@ -90,6 +90,7 @@ let run_c12 (input : S.t) (observed : S.t) : S.t * string =
   let expected = S.L (S.A "round" :: List.init n (fun _ -> S.A "same")) in
   let verdict = (match observed with
       | S.L [S.A "deadlock"] -> "fails:deadlock-a-round-of-concurrent-requests-did-not-finish"
+      | S.L (S.A "serialised" :: _) -> "fails:two-concurrent-requests-cannot-be-inside-one-resolver-method-at-the-same-time"
       | S.L (S.A "round" :: rs) ->
         if List.exists (function S.A "same" -> false | _ -> true) rs then "fails:response-differs-from-the-response-the-request-gets-alone" else "holds"
       | _ -> "fails:shape") in
